@@ -183,6 +183,7 @@ func cmdRun(args []string) int {
 	evidenceOut := fs.String("evidence", "", "evidence file (default evidence/<property>.json)")
 	maxPaths := fs.Int("maxpaths", 0, "stop after this many paths (0 = no limit)")
 	solver := fs.String("solver", "z3", "primary solver")
+	sites := fs.Bool("sites", false, "report decision sites")
 	fs.Parse(args)
 
 	start := time.Now()
@@ -240,7 +241,7 @@ func cmdRun(args []string) int {
 				fmt.Fprintf(os.Stderr, "harness %s not found in %s\n", fsp.Name, h.Pkg)
 				return 2
 			}
-			cfg := Config{StepLimit: 3000000, SymUnwind: 64, MaxEnum: 300, Preempt: 2, Solver: *solver, TimeoutMs: 20000, Debug: *debug, Trace: *trace, MaxPaths: *maxPaths, MapOrderAll: fsp.MapAll}
+			cfg := Config{StepLimit: 3000000, SymUnwind: 64, MaxEnum: 300, Preempt: 2, Solver: *solver, TimeoutMs: 20000, Debug: *debug, Trace: *trace, MaxPaths: *maxPaths, MapOrderAll: fsp.MapAll, Sites: *sites}
 			if *tier == "thorough" {
 				cfg.Solver2 = "cvc5"
 				cfg.TimeoutMs = 120000
@@ -266,6 +267,13 @@ func cmdRun(args []string) int {
 			if err != nil {
 				fmt.Fprintln(os.Stderr, "explore:", err)
 				return 2
+			}
+			if *sites {
+				for _, k := range sortedKeys(st.Notes) {
+					if strings.HasPrefix(k, "site:") {
+						fmt.Printf("  %6d %s\n", st.Notes[k], k)
+					}
+				}
 			}
 			hr := &HarnessRun{Spec: fsp, HSpec: h, Stats: st, Cfg: cfg, PkgName: ld.names[h.Pkg], Params: fsp.Params[*tier]}
 			rep.Runs = append(rep.Runs, hr)
